@@ -1,7 +1,7 @@
 (* C04/Proofs3.v — every representation built from the same logical data returns the elements and the
    specification bytes; destinations; external files at any offset; kernel/chunk copy schedules. *)
 From Coq Require Import NArith ZArith List Bool Arith Lia ZifyBool.
-From IRV Require Import Base.Exn Gen.C04Gen C04.Model C04.Proofs1 C04.Proofs2.
+From IRV Require Import Base.Exn Gen.C04Gen C04.Model C04.Proofs1 C04.ProofsTc C04.Proofs2.
 Import ListNotations.
 Open Scope N_scope.
 Ltac Zify.zify_post_hook ::= Z.to_euclidean_division_equations.
@@ -54,12 +54,12 @@ Proof.
 Qed.
 
 Lemma packed_good dt shape bw xs :
-  bitwidth dt = Some bw -> bw < 8 -> in_range bw xs -> length xs = nsize shape ->
+  bitwidth dt = Some bw -> bw < 8 -> in_range bw xs -> length xs = nsize shape -> shape_size shape < 2 ^ 53 ->
   good_numpy dt xs (RPacked dt shape (le_pack dt xs)) /\ good_bytes dt xs (RPacked dt shape (le_pack dt xs)).
 Proof.
-  intros H Hb R L.
+  intros H Hb R L LS.
   assert (PR : packed_raw dt shape (le_pack dt xs) = Ok (le_pack dt xs)).
-  { unfold packed_raw. rewrite H, (le_pack_length dt bw xs H), (size_of_logical shape xs L), N.eqb_refl. reflexivity. }
+  { unfold packed_raw. rewrite H, (nbytes_code_exact bw _ LS), (le_pack_length dt bw xs H), (size_of_logical shape xs L), N.eqb_refl. reflexivity. }
   split.
   - exists xs. split; [| apply (elem_id dt bw xs H R)].
     cbn [r_numpy]. unfold packed_numpy. rewrite PR. cbn [res_bind]. rewrite H, <- L.
